@@ -905,9 +905,6 @@ func c07Cuts(opts []fox.GlobalOption, p string) []string {
 			out = append(out, q)
 		}
 	}
-	if len(out) > 9 {
-		out = out[:9]
-	}
 	return out
 }
 
@@ -930,8 +927,17 @@ func c07OrderSweep(rnd *hx.Rand, opts []fox.GlobalOption, cs *hx.Cases, st *hx.S
 		bases = append(bases, rt.Pattern(rnd, hx.Pick(rnd, []int{0, 0, 50})))
 	}
 	failing, histories := 0, 0
+	var fams [][]string
 	for _, base := range bases {
-		fam := c07Cuts(opts, base)
+		all := c07Cuts(opts, base)
+		if len(all) > 8 {
+			// long patterns: the shortest prefixes and the most specific members as two families
+			fams = append(fams, all[:8], all[len(all)-8:])
+		} else {
+			fams = append(fams, all)
+		}
+	}
+	for _, fam := range fams {
 		if len(fam) < 2 {
 			continue
 		}
@@ -1007,9 +1013,25 @@ func c07OrderSweep(rnd *hx.Rand, opts []fox.GlobalOption, cs *hx.Cases, st *hx.S
 					}
 					items = append(items, fmt.Sprintf("(%s, %s, %d, %d)", hx.Bytes("GET"), hx.Bytes(q), ps, hs))
 				}
+				// a second reference filled in the reverse order (a fault shared by A and the sorted fill, which
+				// may use the very same order, shows against it)
+				b2, err := fox.New(opts...)
+				hx.Fatal(err)
+				for i := len(set) - 1; i >= 0; i-- {
+					if _, err := b2.Handle("GET", set[i], rt.Noop); err != nil {
+						panic(fmt.Sprintf("the set %v is accepted in sorted order but rejected in reverse order at %s: %v", set, set[i], err))
+					}
+				}
 				var diff string
 				for _, pr := range probes {
 					for _, m := range []string{"GET", "POST", "OPTIONS"} {
+						l2 := rt.Lookup(b2, m, pr.h, pr.p)
+						s2, a2 := rt.Serve(b2, m, pr.h, pr.p)
+						if lb0 := rt.Lookup(b, m, pr.h, pr.p); fmt.Sprint(l2) != fmt.Sprint(lb0) {
+							ok = false
+							diff = fmt.Sprintf("two FRESH fills (sorted / reverse order) differ: %s host=%q path=%q: %v vs %v", m, pr.h, pr.p, lb0, l2)
+						}
+						_, _ = s2, a2
 						la, lb := rt.Lookup(a, m, pr.h, pr.p), rt.Lookup(b, m, pr.h, pr.p)
 						sa, aa := rt.Serve(a, m, pr.h, pr.p)
 						sb, ab := rt.Serve(b, m, pr.h, pr.p)
